@@ -68,6 +68,9 @@ def _work(pid, ob, conn):
             g = _guard(lambda *a: body(desc, SYM, *a))
             engine.install()
             engine.untrace(pm.untraced() if hasattr(pm, "untraced") else default_untraced())
+            if hasattr(pm, "patches"):
+                import crosshair.core as _core
+                _core._PATCH_REGISTRATIONS.update(pm.patches())
             mod = engine.make_entry(ob["oid"], ob["sig"], ob.get("pre", ()), ob.get("raises", ()))
             main = engine.analyze(mod, g, ob["budget"], twin=False, per_path=ob.get("per_path"))
             res.update(main)
